@@ -284,6 +284,63 @@ def h_update(eng):
     eng.oblige(f"{U}/frame.subscriptions-unchanged", z3.And(st.notify.cols["dom"] == N0["dom"], st.notify.cols[".dom"] == N0[".dom"]))
 
 
+def h_validate_watch(eng):
+    """Which names a @state_trigger watches is decided once, in StateTriggerDecorator.validate: the `watch=` list if one is given
+    (and nothing else - that is its purpose), otherwise the names in the expression plus the any-change names.  The statements
+    after `await super().validate()` (schema validation, assumed) are cut out mechanically and run on argument lists that mix
+    expressions and any-change names; STATE_RE is the regular expression read from the module's source."""
+    import ast as _ast, re as _re
+    from pyvc.interp import Env
+    from pyvc.loader import parse_file
+    it = Interpreter(eng)
+    w = World(eng)
+    tree, _ = parse_file(DS_PY)
+    cls = next(n for n in tree.body if isinstance(n, _ast.ClassDef) and n.name == "StateTriggerDecorator")
+    fn = next(n for n in cls.body if isinstance(n, _ast.AsyncFunctionDef) and n.name == "validate")
+    start = next(i for i, st in enumerate(fn.body) if "super().validate()" in _ast.unparse(st)) + 1
+    pat = next(n.value.args[0].value for n in tree.body if isinstance(n, _ast.Assign) and getattr(n.targets[0], "id", None) == "STATE_RE")
+    rx = _re.compile(pat)
+    U = "C04/StateTriggerDecorator.validate"
+    args = [["d.e == '1'"], ["d.e == '1'", "d.f"], ["d.f"], ["d.f", "d.g.attr", "d.h.*", "d.e > 2"]][eng.choose(4, "arguments")]
+    watch = [None, ["d.w"], [], ["d.e", "d.w"]][eng.choose(4, "watch")]
+    in_wait = bool(eng.choose(2, "inside-wait_until"))
+    WU = ClassRec("WaitUntilDecoratorManager")
+    logged = []
+    dm = Rec(cls=WU if in_wait else None, fields={"logger": Rec(fields={"error": lambda i, *a: logged.append(a)}, name="logger"), "name": "file.x.f"}, name="dm")
+    made = []
+    self_ = Rec(fields={"args": list(args), "kwargs": ({} if watch is None else {"watch": list(watch)}), "state_check_now": None, "dm": dm, "name": "state_trigger",
+                        "_ast_expression": None}, name="state_dec")
+
+    def create_expression(i, text):
+        made.append(text)
+        self_._fields["_ast_expression"] = Rec(fields={"get_names": lambda i2: Coro(lambda: SymPySet(["n.in_expr"]), "get_names")}, name="expr")
+    self_._fields["create_expression"] = create_expression
+    self_._fields["has_expression"] = lambda i: self_._fields["_ast_expression"] is not None
+    env = Env(vars={"self": self_, "STATE_RE": Rec(fields={"match": lambda i, t: (True if rx.match(t) else None)}, name="STATE_RE"),
+                    "WaitUntilDecoratorManager": WU, "_LOGGER": logger_stub()})
+    k, v = run_catching(it, lambda: it.exec_block(fn.body[start:], env))
+    eng.cover(f"ran:{k}")
+    eng.oblige(f"{U}/post.no-exception", k == "ok")
+    if k != "ok":
+        return
+    anyc = [a for a in args if rx.match(a)]
+    exprs = [a for a in args if not rx.match(a)]
+    f = self_._fields
+    eng.oblige(f"{U}/post.any-change-names-are-the-arguments-of-name-form", sorted(f["state_trig_ident_any"]) == sorted(anyc))
+    eng.oblige(f"{U}/post.one-expression-from-the-other-arguments", (made == []) if not exprs else (len(made) == 1 and all(e in made[0] for e in exprs)))
+    want = set(watch) if watch is not None else (set(["n.in_expr"] if exprs else []) | set(anyc))
+    ob = eng.oblige(f"{U}/post.watched-names-are-the-watch-list-or-else-expression-names-plus-any-change-names", set(f["state_trig_ident"]) == want)
+    if ob.status == "refuted":
+        ob.witness = {"signature": "watch-list-not-exclusive", "args": args, "watch": watch}
+    eng.oblige(f"{U}/post.check-now-defaults-to-true-only-inside-wait_until", f["state_check_now"] is (True if in_wait else None))
+    eng.oblige(f"{U}/post.watching-nothing-is-reported", (len(logged) == 1) == (len(want) == 0))
+
+
+def replay_watch(wj):
+    from replay.native import run_native
+    return run_native("c04_watch_list", wj)
+
+
 def harnesses():
     hs = []
     for which in ("ident_any_values_changed", "ident_values_changed"):
@@ -800,6 +857,7 @@ def harnesses():  # noqa: F811
     hs = _h2()
     hs.append(Harness("bounded.chain[depth<=2]", bounded_chain(2), units=[(T_PY, "TrigInfo.trigger_watch"), (DS_PY, "StateTriggerDecorator._cycle"), (ST_PY, "State.update")], kind="bounded"))
     hs.append(Harness("bounded.chain[depth<=3]", bounded_chain(3), units=[(T_PY, "TrigInfo.trigger_watch"), (DS_PY, "StateTriggerDecorator._cycle"), (ST_PY, "State.update")], kind="bounded", tier="thorough"))
+    hs.append(Harness("StateTriggerDecorator.validate", h_validate_watch, units=[(DS_PY, "StateTriggerDecorator.validate")], replay=replay_watch))
     hs.append(Harness("bounded.classification", bounded_classification, units=[(T_PY, "TrigInfo.__init__"), (DS_PY, "StateTriggerDecorator.validate")], kind="bounded"))
     for ni, na in ((1, 0), (0, 1), (1, 1)):
         hs.append(Harness(f"new.step[ident={ni},any={na}]", with_chain_witness(h_new_step(ni, na)), units=[(DS_PY, "StateTriggerDecorator._cycle"),
